@@ -43,7 +43,7 @@ def run_one(w, prop, repo):
             open(p, "w", encoding="utf-8").write(s.replace(ed["old"], ed["new"]))
         ev = os.path.join(tmp, "ev")
         os.makedirs(ev)
-        env = dict(os.environ, VERIF_REPO=src, VERIF_EVIDENCE_DIR=ev, VERIF_TIER="quick")
+        env = dict(os.environ, VERIF_REPO=src, VERIF_EVIDENCE_DIR=ev, VERIF_TIER="quick", VERIF_CACHE=os.path.join(tmp, "cache"), VERIF_TMP=tmp)
         r = subprocess.run([os.path.join(VERIF, "check"), prop, "--tier", "quick"], cwd=VERIF, env=env,
                            stdout=subprocess.PIPE, stderr=subprocess.STDOUT, text=True)
         keys = []
